@@ -10,7 +10,7 @@ import TsVerif.C12.Model
   on the real `before` / `edited` dumps of `ts_tree_edit`.
 * `judgeCase`: the measured fractions (parts per million) against the committed thresholds.
 * `growthOk`: the fraction at a larger size is not larger than 1.5 × the fraction at the smallest
-  size (plus 0.5 % absolute slack for small-sample noise).
+  size (plus 1 % absolute slack for small-sample noise).
 -/
 namespace TsVerif.C12
 open TsGen TsVerif
@@ -184,7 +184,7 @@ def judgeCase (thr : Thresholds) (m : Measured) (incrError scratchError sameSexp
   else if m.freshVisPpm > thr.freshVis then some s!"fraction of new-tree VISIBLE heap nodes not shared with the old tree {m.freshVisPpm} ppm exceeds threshold {thr.freshVis} ppm"
   else none
 
-/-- "Does not grow with document size": `big ≤ 1.5 × small + 0.5 %`. -/
-def growthOk (small big : Nat) : Bool := big * 2 ≤ small * 3 + 10000
+/-- "Does not grow with document size": `big ≤ 1.5 × small + 1 %`. -/
+def growthOk (small big : Nat) : Bool := big * 2 ≤ small * 3 + 20000
 
 end TsVerif.C12
